@@ -25,6 +25,8 @@ Do(ev) ==
     [] ev.e = "UnpackU32le" -> UnpackU32le
     [] ev.e = "Rewind" -> Rewind
     [] ev.e = "Flip" -> Flip
+    [] ev.e = "PackWire" -> PackWire(ev.a[1])
+    [] ev.e = "UnpackWire" -> UnpackWire(ev.a[1], ev.a[2])
     [] OTHER -> FALSE
 
 TraceInit == Init /\ size = 0 /\ ti = 1 /\ big = FALSE
